@@ -44,6 +44,68 @@ def box : Pos → Pos → List Pos
   | _ :: _, [] => []
   | m :: ms, s :: ss => (box ms ss).flatMap (row m (s - m).toNat)
 
+/-- special members, specified on values: every object holds a whole grid value or (moved-from) none;
+    copying duplicates the value, moving transfers it, swapping exchanges the two objects, default construction
+    yields the empty grid of the static size `n` -/
+def specStep {α : Type} (n : Nat) (st : List (Option (Grid α))) : RegOp → Option (List (Option (Grid α)))
+  | .defaultCtor d =>
+    match st[d]? with
+    | some _ => some (st.set d (some (Grid.empty n)))
+    | none => none
+  | .copyCtor d s =>
+    if d == s then none else
+    match st[s]?, st[d]? with
+    | some (some v), some _ => some (st.set d (some v))
+    | _, _ => none
+  | .copyAssign d s =>
+    match st[s]?, st[d]? with
+    | some (some v), some _ => some (st.set d (some v))
+    | _, _ => none
+  | .moveCtor d s =>
+    if d == s then none else
+    match st[s]?, st[d]? with
+    | some (some v), some _ => some ((st.set d (some v)).set s none)
+    | _, _ => none
+  | .moveAssign d s =>
+    match st[s]?, st[d]? with
+    | some x, some _ =>
+      if d == s then some st else
+      match x with
+      | some v => some ((st.set d (some v)).set s none)
+      | none => none
+    | _, _ => none
+  | .swapMember a b | .swapFree a b =>
+    match st[a]?, st[b]? with
+    | some x, some y => some ((st.set a y).set b x)
+    | _, _ => none
+
+def specRun {α : Type} (n : Nat) (st : List (Option (Grid α))) : List RegOp → Option (List (Option (Grid α)))
+  | [] => some st
+  | op :: ops => (specStep n st op).bind fun st' => specRun n st' ops
+
+/-- what an object is worth: its grid, or nothing once it has been moved from -/
+def absSlot {α : Type} (s : Slot α) : Option (Grid α) := if s.moved then none else some s.g
+
+/-- the lexicographic order on lists of integers (the meaning of `std::lexicographical_compare`) -/
+def LexLt : List Int → List Int → Prop
+  | [], [] => False
+  | [], _ :: _ => True
+  | _ :: _, [] => False
+  | x :: xs, y :: ys => x < y ∨ (x = y ∧ LexLt xs ys)
+
+/-- the printed form of a grid: `dims` are the extents still to be opened, slowest first; `suf` the coordinates
+    already fixed (the slower ones); a level is `(` its `d` sub-levels separated by `,` `)`, the innermost is the cell -/
+def render (v : Pos → String) : List Int → Pos → String
+  | [], suf => v suf
+  | d :: ds, suf => "(" ++ ",".intercalate ((List.range d.toNat).map fun (i : Nat) => render v ds ((i : Int) :: suf)) ++ ")"
+
+/-- multilinear interpolation: `hi` are the offsets (0 or 1) already chosen for the coordinates `≥ n`; coordinate
+    `n - 1` is interpolated with its fractional part `fr (n-1)` between the two values one level down; at level 0
+    the value is the cell at `fl + hi` -/
+def multilin {α φ : Type} (v : Pos → α) (ip : φ → α → α → α) (fl : Pos) (fr : Nat → φ) : Nat → Pos → α
+  | 0, hi => v (List.zipWith (· + ·) hi fl)
+  | n + 1, hi => ip (fr n) (multilin v ip fl fr n (0 :: hi)) (multilin v ip fl fr n (1 :: hi))
+
 instance : (mn sp p : Pos) → Decidable (InBox mn sp p)
   | [], [], [] => isTrue trivial
   | m :: ms, s :: ss, x :: xs =>
